@@ -1,6 +1,7 @@
 import SlocModel.Driver.Proto
 import SlocModel.Driver.Threshold
 import SlocModel.Driver.Counter
+import SlocModel.Driver.Grammar
 import SlocModel.Driver.Toml
 import SlocModel.Driver.Trend
 import SlocModel.Driver.Baseline
@@ -28,6 +29,7 @@ def dispatch (line : String) : String :=
       | "pct" => handlePct args
       | "count" => handleCount args
       | "insert" => handleInsert args
+      | "grammar" => handleGrammar args
       | "find-start" => handleFindStart args
       | "has-end" => handleHasEnd args
       | "nesting" => handleNesting args
